@@ -21,7 +21,7 @@ func init() {
 			"(today Hash, SenderShardID, ReceiverShardID, TxCount, Type; a new field creates a new obligation automatically) is compared in checkHeaderBodyCorrelation by a test whose failing branch leads only to " +
 			"error returns (Hash: used as the lookup key whose `ok` is tested), against the corresponding quantity of the body miniblock; and a success exit lies behind the test that the NUMBER OF HEADER ENTRIES " +
 			"(len of the header slice, not of a de-duplicated index) equals the number of body miniblocks. A field that is populated but never compared lets a header announce something else than the body contains. " +
-			"Not decided: multiplicity ('exactly one' body miniblock per header entry - header [A,B] with body [A,A] is not excluded by any idiom-independent structural rule).",
+			"Multiplicity ('exactly one'): in the body loop, every path from the header-index lookup to the next iteration updates (MapUpdate/delete) a map whose lookup guards an error exit of that loop - without a loop-carried update the per-miniblock tests are independent and body [A,A] passes for header [A,B].",
 		Run: runC19,
 	})
 }
@@ -78,37 +78,44 @@ func runC19(c *core.Ctx) {
 			continue
 		}
 		c.Sites++
-		reach := core.BackwardReach(ifi.Cond)
-		for v := range reach {
-			if _, f := core.FieldLoad(v); f != nil && isMBHField(f) {
-				// the other operand must come from the body miniblock (p2)
-				fromBody := false
-				for w := range reach {
-					if strings.HasPrefix(core.ExprKey(w), "p2") {
-						fromBody = true
-					}
-				}
-				if fromBody {
-					compared[f] = c.P.Pos(ifi.Pos())
-				}
+		for si, sblk := range b.Succs {
+			if !core.OnlyErrorReturnsFrom(sblk, b, nil) {
+				continue
 			}
-			// lookup `ok` of a map keyed by a header field
-			if ex, ok := v.(*ssa.Extract); ok && ex.Index == 1 {
-				if lk, ok := ex.Tuple.(*ssa.Lookup); ok && lk.CommaOk {
-					core.Instrs(ck, func(in ssa.Instruction) {
-						if mu, ok := in.(*ssa.MapUpdate); ok && mu.Map == lk.X {
-							for kv := range core.BackwardReach(mu.Key) {
-								if _, f := core.FieldLoad(kv); f != nil && isMBHField(f) {
-									// the lookup key derives from the body miniblock
-									for w := range core.BackwardReach(lk.Index) {
-										if strings.HasPrefix(core.ExprKey(w), "p2") {
-											compared[f] = c.P.Pos(ifi.Pos())
+			for _, at := range impliedBy(ifi.Cond, si == 0, 0) {
+				reach := core.BackwardReach(at.v)
+				mismatch := false
+				if bo, ok := at.v.(*ssa.BinOp); ok {
+					mismatch = (bo.Op == token.NEQ && at.val) || (bo.Op == token.EQL && !at.val)
+				}
+				for v := range reach {
+					if _, f := core.FieldLoad(v); f != nil && isMBHField(f) && mismatch {
+						// the other operand must come from the body miniblock (p2)
+						for w := range reach {
+							if strings.HasPrefix(core.ExprKey(w), "p2") {
+								compared[f] = c.P.Pos(ifi.Pos())
+							}
+						}
+					}
+					// presence in a map keyed by a header field, looked up by a key derived from the body miniblock
+					if lk, ok := v.(*ssa.Lookup); ok {
+						if _, isMap := lk.X.Type().Underlying().(*types.Map); !isMap {
+							continue
+						}
+						core.Instrs(ck, func(in ssa.Instruction) {
+							if mu, ok := in.(*ssa.MapUpdate); ok && mu.Map == lk.X {
+								for kv := range core.BackwardReach(mu.Key) {
+									if _, f := core.FieldLoad(kv); f != nil && isMBHField(f) {
+										for w := range core.BackwardReach(lk.Index) {
+											if strings.HasPrefix(core.ExprKey(w), "p2") {
+												compared[f] = c.P.Pos(ifi.Pos())
+											}
 										}
 									}
 								}
 							}
-						}
-					})
+						})
+					}
 				}
 			}
 		}
@@ -148,4 +155,142 @@ func runC19(c *core.Ctx) {
 		"success only when len(miniBlockHeaders) == len(body.MiniBlocks)",
 		"a success exit is not dominated by `len(miniBlockHeaders) == len(body.MiniBlocks)` on the header slice itself: a header listing an entry twice (or more entries than the body has) is accepted")
 	_ = fmt.Sprint
+
+	// the check is applied: no block (start-of-epoch metablocks included) is processed successfully
+	// without its body having been compared with its header
+	for _, typ := range []string{"shardProcessor", "metaProcessor"} {
+		pb := anchorM(c, pkg, typ, "ProcessBlock")
+		if pb == nil {
+			continue
+		}
+		c.Analysed(fname(pb))
+		mustPassChecked(c, pb, "C19/process-block-checks-correlation", typ+".ProcessBlock", nil,
+			func(in ssa.Instruction, cc *ssa.CallCommon) bool { return cc.StaticCallee() == ck },
+			core.SuccessReturn, nil, "every exit of ProcessBlock that can report success lies behind checkHeaderBodyCorrelation(header's miniblock headers, body) == nil")
+	}
+	c.Floor("C19/process-block-checks-correlation", 2)
+
+	// multiplicity: a per-element test against a loop-invariant index cannot tell body [A, A] from
+	// body [A, B]; together with the count test, "each header entry matched by exactly one body
+	// miniblock" needs every matched iteration of the body loop to consume what it matched
+	type guardMap struct {
+		m  ssa.Value
+		lk *ssa.Lookup
+	}
+	nLoops := 0
+	for _, l := range core.Loops(ck) {
+		var guards []guardMap
+		for _, b := range ck.Blocks {
+			if !l.Body[b] {
+				continue
+			}
+			ifi, ok := b.Instrs[len(b.Instrs)-1].(*ssa.If)
+			if !ok {
+				continue
+			}
+			errBranch := false
+			for _, s := range b.Succs {
+				if core.OnlyErrorReturnsFrom(s, b, nil) {
+					errBranch = true
+				}
+			}
+			if !errBranch {
+				continue
+			}
+			for v := range core.BackwardReachPure(ifi.Cond) {
+				if lk, ok := v.(*ssa.Lookup); ok && l.Body[lk.Block()] {
+					if _, isMap := lk.X.Type().Underlying().(*types.Map); isMap {
+						guards = append(guards, guardMap{lk.X, lk})
+					}
+				}
+			}
+		}
+		if len(guards) == 0 {
+			continue
+		}
+		nLoops++
+		sort.Slice(guards, func(i, j int) bool { return guards[i].lk.Pos() < guards[j].lk.Pos() })
+		isGuardMap := func(m ssa.Value) bool {
+			for _, g := range guards {
+				if g.m == m {
+					return true
+				}
+			}
+			return false
+		}
+		consumes := func(in ssa.Instruction) bool {
+			if !l.Body[in.Block()] {
+				return false
+			}
+			if mu, ok := in.(*ssa.MapUpdate); ok {
+				return isGuardMap(mu.Map)
+			}
+			if call, ok := in.(*ssa.Call); ok {
+				if bi, ok := call.Call.Value.(*ssa.Builtin); ok && bi.Name() == "delete" && len(call.Call.Args) > 0 {
+					return isGuardMap(call.Call.Args[0])
+				}
+			}
+			return false
+		}
+		first := guards[0].lk
+		esc, path := core.PathQ{Fn: ck, From: first, Via: consumes,
+			Target: func(in ssa.Instruction, _ *ssa.BasicBlock) bool {
+				b := in.Block()
+				if !l.Body[b] || in != b.Instrs[len(b.Instrs)-1] {
+					return false
+				}
+				for _, s := range b.Succs {
+					if s == l.Header {
+						return true
+					}
+				}
+				return false
+			}}.Escape()
+		c.Check(esc == nil, "C19/each-entry-matched-once", "baseProcessor.checkHeaderBodyCorrelation", first.Pos(),
+			"every iteration of the body loop that passes the header-index lookup updates the index it was matched against before the next iteration: an entry cannot be matched twice",
+			"an iteration of the body loop reaches the next one without updating the index its miniblock was matched against ("+c.P.PathString(path)+"): the per-miniblock tests are independent of each other, so body [A, A] is accepted for header [A, B] (equal count, every body hash listed) although entry B is matched by no body miniblock")
+	}
+	if nLoops == 0 {
+		c.Undecided("C19/each-entry-matched-once", "baseProcessor.checkHeaderBodyCorrelation", ck.Pos(), "no loop with an index lookup guarding an error exit: the matching idiom is not the one this rule decides")
+	}
+}
+
+type atomVal struct {
+	v   ssa.Value
+	val bool
+}
+
+// impliedBy lists the atomic conditions a with a value x such that (a == x) alone forces
+// (v == pol): through negation, through `||` (any true disjunct makes it true) and through `&&`
+// (any false conjunct makes it false).
+func impliedBy(v ssa.Value, pol bool, depth int) []atomVal {
+	if depth > 8 {
+		return nil
+	}
+	if u, ok := v.(*ssa.UnOp); ok && u.Op == token.NOT {
+		return impliedBy(u.X, !pol, depth+1)
+	}
+	if _, ok := v.(*ssa.Phi); ok {
+		if d := core.Disjuncts(v); len(d) > 1 {
+			if !pol {
+				return nil
+			}
+			var out []atomVal
+			for _, x := range d {
+				out = append(out, impliedBy(x, true, depth+1)...)
+			}
+			return out
+		}
+		if cj := core.Conjuncts(v); len(cj) > 1 {
+			if pol {
+				return nil
+			}
+			var out []atomVal
+			for _, x := range cj {
+				out = append(out, impliedBy(x, false, depth+1)...)
+			}
+			return out
+		}
+	}
+	return []atomVal{{v, pol}}
 }
